@@ -229,7 +229,7 @@ def strip(t):
 
 LEVEL["C12"] = ("Decides two receiver-side clauses of C12: a short, zero or failed follow-up read can never reach an Ok return and every Ok return follows a "
                 "received >= total edge (TRUNC-ERR); 'closed' may originate only from the channel's own descriptor (CLOSED-ORIGIN) -- today it also "
-                "originates from the per-message socket, recorded as a known finding. The sender side is FRAG-ROUTE + RAII (C02/C11). Not decided: anything "
+                "originates from the per-message socket, recorded as a known finding. The sender side is FRAG-ROUTE + SEND-PEER-CLOSED + RAII, and every socket it creates is close-on-exec (CLOEXEC) so that a dead sender's children cannot keep the per-message socket open. Not decided: anything "
                 "about when the sending process dies, delivery of earlier messages, receiver liveness.")
 
 
@@ -241,6 +241,7 @@ def check_C12(ctx):
         ctx.rule("CLOSED-ORIGIN").floor("closed_constructions[%s]" % cfg, 1, cfg)
         send.rule_frag_route(ctx, cfg, F)
         send.rule_peer_closed(ctx, cfg, F)
+        fd.rule_cloexec(ctx, cfg, F, None)
     ctx.assume("a dying sender closes both ends of its per-message socketpair (kernel), so the follow-up read returns 0")
 
 
